@@ -1208,6 +1208,9 @@ class Interp:
         if isinstance(obj, (bytes, tuple, dict)) and all(_is_conc(a) for a in args):
             return getattr(obj, attr)(*args)
         if isinstance(obj, AObj):
+            h = getattr(obj, "handlers", None)
+            if h and attr in h:
+                return h[attr](*args)
             obj.calls.append((attr, args, kwargs))
             return Unknown(f"{obj.name}.{attr}({', '.join(_text(a) for a in args)})")
         if isinstance(obj, SymList):
